@@ -1,17 +1,36 @@
-//! C12 — job table consistency: histories of job events against the real `JobList`.
+//! C12 — job table consistency: histories of job events against the real `JobList`, including the
+//! built-ins that work on the table (`jobs`, `bg`, `fg`, `wait`) and the asynchronous command
+//! `cmd &` (`yash-semantics/src/command/item.rs`), all run on a `VirtualSystem`.
 //!
 //! Case line: operations separated by `;` (see /verif/lean/YashModel/Job/Main.lean).
-//! Observation: the public view after every operation.  Oracle: the clauses of the property
-//! statement evaluated on the real table after every operation (only while the `insert`
-//! precondition — pid fresh or designating a finished job — has been respected).
+//! Observation: the public view after every operation (for a built-in also
+//! `<exit status>:<hex stdout>:<error classes>`).  Oracle: the clauses of the property statement
+//! evaluated on the real table after every operation (only while the `insert` precondition — pid
+//! fresh or designating a finished job — has been respected), plus what the documentation says
+//! about markers, removal by `jobs`, `$!` and the job an operand designates.
 
+use std::cell::RefCell;
 use std::collections::{HashSet, VecDeque};
+use std::future::Future;
+use std::pin::Pin;
+use std::rc::Rc;
+use std::task::{Context, Waker};
+use yash_env::Env;
+use yash_env::builtin::{Builtin, Type};
 use yash_env::job::id::{FindError, JobId};
 use yash_env::job::{Job, JobList, Pid, ProcessResult, ProcessState, SetCurrentJobError};
-use yash_env::semantics::ExitStatus;
+use yash_env::option::Option::{Interactive, Monitor};
+use yash_env::option::State::{Off, On};
+use yash_env::semantics::{ExitStatus, Field};
 use yash_env::signal::Number as SigNum;
-use yverif::proto::{Opts, emit, guarded, quiet_panics};
+use yash_env::system::Concurrent;
+use yash_env::system::r#virtual::{Process, SystemState, VirtualSystem};
+use yash_env::trap::RunSignalTrapIfCaught;
+use yash_semantics::command::Command as _;
+use yash_syntax::source::Location;
+use yverif::proto::{Opts, emit, enc_str, guarded, quiet_panics};
 use yverif::rng::Rng;
+use yverif::shell::{BuiltinFuture, VEnv, VSys, read_file};
 
 fn sig(n: i32) -> SigNum {
     SigNum::from_raw_unchecked(std::num::NonZeroI32::new(n).unwrap())
@@ -23,9 +42,9 @@ fn parse_state(t: &str) -> Option<ProcessState> {
         "R" if rest.is_empty() => ProcessState::Running,
         "S" => ProcessState::stopped(sig(rest.parse().ok()?)),
         "E" => ProcessState::exited(ExitStatus(rest.parse().ok()?)),
-        "K" => ProcessState::Halted(ProcessResult::Signaled {
+        "K" | "C" => ProcessState::Halted(ProcessResult::Signaled {
             signal: sig(rest.parse().ok()?),
-            core_dump: false,
+            core_dump: k == "C",
         }),
         _ => return None,
     })
@@ -36,8 +55,8 @@ fn show_state(s: &ProcessState) -> String {
         ProcessState::Running => "R".into(),
         ProcessState::Halted(ProcessResult::Stopped(n)) => format!("S{}", n.as_raw()),
         ProcessState::Halted(ProcessResult::Exited(e)) => format!("E{}", e.0),
-        ProcessState::Halted(ProcessResult::Signaled { signal, .. }) => {
-            format!("K{}", signal.as_raw())
+        ProcessState::Halted(ProcessResult::Signaled { signal, core_dump }) => {
+            format!("{}{}", if *core_dump { "C" } else { "K" }, signal.as_raw())
         }
     }
 }
@@ -50,7 +69,10 @@ fn pids_mentioned(ops: &[&str]) -> Vec<i32> {
     let mut v: Vec<i32> = vec![];
     for op in ops {
         let w: Vec<&str> = op.split_whitespace().collect();
-        if matches!(w.first(), Some(&"ins") | Some(&"upd") | Some(&"async")) {
+        if matches!(
+            w.first(),
+            Some(&"ins") | Some(&"upd") | Some(&"async") | Some(&"job") | Some(&"amp")
+        ) {
             if let Some(p) = w.get(1).and_then(|p| p.parse().ok()) {
                 if !v.contains(&p) {
                     v.push(p);
@@ -66,7 +88,7 @@ fn observe(l: &JobList, r: &str, pids: &[i32]) -> String {
         .iter()
         .map(|(i, j)| {
             format!(
-                "{}:{}:{}:{}:{}:{}",
+                "{}:{}:{}:{}:{}:{}:{}:{}",
                 i,
                 j.pid.0,
                 show_state(&j.state),
@@ -74,7 +96,9 @@ fn observe(l: &JobList, r: &str, pids: &[i32]) -> String {
                 j.is_owned as u8,
                 j.expected_state
                     .map(|s| show_state(&s))
-                    .unwrap_or_else(|| "-".into())
+                    .unwrap_or_else(|| "-".into()),
+                j.job_controlled as u8,
+                enc_str(&j.name)
             )
         })
         .collect();
@@ -86,6 +110,8 @@ fn observe(l: &JobList, r: &str, pids: &[i32]) -> String {
         JobId::JobNumber(3.try_into().unwrap()),
         JobId::JobNumber(4.try_into().unwrap()),
         JobId::JobNumber(5.try_into().unwrap()),
+        JobId::NamePrefix("a"),
+        JobId::NameSubstring("b"),
     ];
     let finds: Vec<String> = ids
         .iter()
@@ -162,6 +188,251 @@ fn stable(before: &[(usize, i32)], l: &JobList) -> bool {
     })
 }
 
+// ------------------------------------------------------------------------------------------
+// the built-ins on a virtual system
+
+/// names that `cmd &` can run: registered as built-ins that do nothing
+const NAMES: [&str; 5] = ["a", "ab", "abc", "b", "ba"];
+
+fn noop_main(_env: &mut VEnv, _args: Vec<Field>) -> BuiltinFuture<'_> {
+    Box::pin(async move { ExitStatus::SUCCESS.into() })
+}
+
+/// An environment on a `VirtualSystem` with an executor for child processes.  The job list of
+/// the case is moved into `env.jobs` for the duration of one built-in.
+struct World {
+    env: VEnv,
+    system: VSys,
+    state: Rc<RefCell<SystemState>>,
+    executor: yash_executor::Executor<'static>,
+    shell_pid: Pid,
+    out_len: usize,
+    err_len: usize,
+}
+
+/// What one built-in left behind.
+struct Ran {
+    status: i32,
+    divert: bool,
+    stdout: String,
+    stderr: String,
+    stuck: bool,
+}
+
+impl World {
+    fn new() -> World {
+        let system = VirtualSystem::new();
+        let shell_pid = system.process_id;
+        let state = Rc::clone(&system.state);
+        let executor = yash_executor::Executor::new();
+        state.borrow_mut().executor = Some(Rc::new(executor.spawner()));
+        let mut env = Env::with_system(Rc::new(Concurrent::new(system)));
+        let system = Rc::clone(&env.system);
+        env.any.insert(Box::new(RunSignalTrapIfCaught::<VSys>(|_, _| {
+            Box::pin(std::future::ready(None))
+        })));
+        for n in NAMES {
+            env.builtins.insert(n, Builtin::new(Type::Mandatory, noop_main));
+        }
+        World { env, system, state, executor, shell_pid, out_len: 0, err_len: 0 }
+    }
+
+    /// Runs `f(env)` as the shell process: the future is polled by hand, the executor runs the
+    /// child processes in between, `hook` plays the outside world whenever the shell is blocked.
+    fn drive<T>(
+        &mut self,
+        hook: &mut dyn FnMut(&Rc<RefCell<SystemState>>),
+        f: impl for<'e> FnOnce(&'e mut VEnv) -> Pin<Box<dyn Future<Output = T> + 'e>>,
+    ) -> Option<T> {
+        let mut result = None;
+        {
+            let slot = &mut result;
+            let env = &mut self.env;
+            let task = async move {
+                *slot = Some(f(env).await);
+            };
+            let mut fut = std::pin::pin!(self.system.run_virtual(task));
+            let mut cx = Context::from_waker(Waker::noop());
+            for _ in 0..200 {
+                if fut.as_mut().poll(&mut cx).is_ready() {
+                    break;
+                }
+                self.executor.run_until_stalled();
+                hook(&self.state);
+            }
+        }
+        // let children finish
+        for _ in 0..50 {
+            if self.executor.run_until_stalled() == 0 {
+                break;
+            }
+        }
+        result
+    }
+
+    fn take_output(&mut self) -> (String, String) {
+        let out = read_file(&self.state, "/dev/stdout").unwrap_or_default();
+        let err = read_file(&self.state, "/dev/stderr").unwrap_or_default();
+        let o = String::from_utf8_lossy(&out[self.out_len.min(out.len())..]).into_owned();
+        let e = String::from_utf8_lossy(&err[self.err_len.min(err.len())..]).into_owned();
+        self.out_len = out.len();
+        self.err_len = err.len();
+        (o, e)
+    }
+
+    /// removes every process but the shell
+    fn clear_processes(&mut self) {
+        let shell = self.shell_pid;
+        self.state.borrow_mut().processes.retain(|pid, _| *pid == shell);
+    }
+
+    fn add_process(&mut self, pid: Pid, ppid: Pid, st: ProcessState) {
+        let mut p = Process::with_parent_and_group(ppid, pid);
+        let _ = p.set_state(st);
+        let _ = p.take_state();
+        self.state.borrow_mut().processes.insert(pid, p);
+    }
+
+    fn run_builtin(
+        &mut self,
+        hook: &mut dyn FnMut(&Rc<RefCell<SystemState>>),
+        f: impl for<'e> FnOnce(&'e mut VEnv) -> Pin<Box<dyn Future<Output = yash_env::builtin::Result> + 'e>>,
+    ) -> Ran {
+        let r = self.drive(hook, f);
+        let (stdout, stderr) = self.take_output();
+        self.clear_processes();
+        match r {
+            Some(r) => Ran {
+                status: r.exit_status().0,
+                divert: r.divert().is_break(),
+                stdout,
+                stderr,
+                stuck: false,
+            },
+            None => Ran { status: -1, divert: false, stdout, stderr, stuck: true },
+        }
+    }
+}
+
+/// error classes of the messages on standard error, in order of appearance
+fn err_classes(stderr: &str) -> Vec<String> {
+    const PATTERNS: [(&str, &str); 14] = [
+        ("job not found", "nf"),
+        ("matches more than one job", "amb"),
+        ("ambiguous job\n", "amb"),
+        ("a job ID must start with", "badid"),
+        ("not controlled by the current shell", "unowned"),
+        ("not job-controlled", "unmon"),
+        ("job control is disabled", "nomon"),
+        ("there is no job", "nojob"),
+        ("no job to wait for", "nowait"),
+        ("too many operands", "many"),
+        ("system error", "sys"),
+        ("conflicting options", "conflict"),
+        ("unknown option", "unkopt"),
+        ("invalid job specification", "badspec"),
+    ];
+    // `FindError::Ambiguous` prints "ambiguous job" (bg, fg, jobs); the title of `wait`'s report
+    // is "ambiguous job ID", which is not counted (its labels are)
+    let text = stderr.replace("ambiguous job ID", "AMBIGUOUS-ID").replace("ambiguous job", "ambiguous job\n");
+    let mut found: Vec<(usize, &str)> = vec![];
+    for (pat, class) in PATTERNS {
+        let mut from = 0;
+        while let Some(i) = text[from..].find(pat) {
+            found.push((from + i, class));
+            from += i + pat.len();
+        }
+    }
+    found.sort();
+    let mut v: Vec<String> = found.into_iter().map(|(_, c)| c.to_string()).collect();
+    if v.is_empty() && !stderr.trim().is_empty() {
+        // `[n] pid` printed by an interactive shell for `cmd &`
+        let t = stderr.trim();
+        if let Some(rest) = t.strip_prefix('[') {
+            if let Some((n, pid)) = rest.split_once("] ") {
+                if n.parse::<usize>().is_ok() && pid.parse::<i32>().is_ok() {
+                    return vec![format!("async:{n}:{pid}")];
+                }
+            }
+        }
+        v.push("other".into());
+    }
+    v
+}
+
+fn show_ran(r: &Ran) -> String {
+    if r.stuck {
+        return "STUCK".into();
+    }
+    let errs = err_classes(&r.stderr);
+    format!(
+        "{}{}:{}:{}",
+        r.status,
+        if r.divert { "!divert" } else { "" },
+        enc_str(&r.stdout),
+        if errs.is_empty() { "-".to_string() } else { errs.join("+") }
+    )
+}
+
+/// an argument token of a built-in: `''` is the empty string; long options are not modelled
+fn parse_args(ws: &[&str]) -> Option<Vec<Field>> {
+    let mut v = vec![];
+    for w in ws {
+        if *w == "''" {
+            v.push(Field::dummy(""));
+        } else if w.starts_with("--") && w.len() > 2 {
+            return None;
+        } else {
+            v.push(Field::dummy(*w));
+        }
+    }
+    Some(v)
+}
+
+fn parse_bool(t: &str) -> Option<bool> {
+    match t {
+        "1" => Some(true),
+        "0" => Some(false),
+        _ => None,
+    }
+}
+
+/// `(number, marker)` of every line of a `jobs` report in the default or `-l` format
+fn report_heads(out: &str) -> Vec<(usize, char)> {
+    out.lines()
+        .filter_map(|l| {
+            let rest = l.strip_prefix('[')?;
+            let (n, tail) = rest.split_once("] ")?;
+            Some((n.parse().ok()?, tail.chars().next()?))
+        })
+        .collect()
+}
+
+/// snapshot used by the documentation checks: (index, pid, alive, state text)
+type Snap = Vec<(usize, i32, bool, String)>;
+
+fn snapshot(l: &JobList) -> Snap {
+    l.iter().map(|(i, j)| (i, j.pid.0, j.state.is_alive(), show_state(&j.state))).collect()
+}
+
+/// the job the documentation says an operand designates, for the unambiguous forms only
+/// (`%`, `%%`, `%+`, `%-`, `%<digits>` with a value ≥ 1); `None` = not one of these forms
+fn doc_simple(op: &str, cur: Option<usize>, prev: Option<usize>, snap: &Snap) -> Option<Option<usize>> {
+    let t = op.strip_prefix('%')?;
+    match t {
+        "" | "%" | "+" => Some(cur),
+        "-" => Some(prev),
+        _ if t.chars().all(|c| c.is_ascii_digit()) => {
+            let n: usize = t.parse().ok()?;
+            if n == 0 {
+                return None;
+            }
+            Some(snap.iter().find(|e| e.0 == n - 1).map(|e| e.0))
+        }
+        _ => None,
+    }
+}
+
 /// Runs one history; returns (observation, oracle, visible state key after the last op).
 fn run_case(case: &str) -> (String, String, String) {
     let ops: Vec<&str> = case
@@ -171,13 +442,252 @@ fn run_case(case: &str) -> (String, String, String) {
         .collect();
     let pids = pids_mentioned(&ops);
     let mut l = JobList::new();
+    let mut world: Option<World> = None;
     let mut obs = vec![];
     let mut verdict: Option<String> = None;
     let mut pre = true;
     for (k, op) in ops.iter().enumerate() {
         let w: Vec<&str> = op.split_whitespace().collect();
         let before: Vec<(usize, i32)> = l.iter().map(|(i, j)| (i, j.pid.0)).collect();
+        // what the documentation promises about this step, evaluated on the real table
+        let mut doc: Option<String> = None;
         let r: String = match w.as_slice() {
+            ["job", p, st, jc, name] => {
+                let pid = Pid(p.parse().unwrap());
+                if let Some(i) = l.find_by_pid(pid) {
+                    if l.get(i).map(|j| j.state.is_alive()).unwrap_or(false) {
+                        pre = false;
+                    }
+                }
+                let (Some(state), Some(jc)) = (parse_state(st), parse_bool(jc)) else {
+                    return ("bad-case".into(), "-".into(), String::new());
+                };
+                let mut j = Job::new(pid);
+                j.state = state;
+                j.job_controlled = jc;
+                j.name = if *name == "-" { String::new() } else { name.to_string() };
+                l.insert(j).to_string()
+            }
+            ["jobs", args @ ..] => {
+                let Some(fields) = parse_args(args) else {
+                    return ("bad-case".into(), "-".into(), String::new());
+                };
+                let wd = world.get_or_insert_with(World::new);
+                let (cur, prev, snap) = (l.current_job(), l.previous_job(), snapshot(&l));
+                wd.env.jobs = std::mem::take(&mut l);
+                let ran = wd.run_builtin(&mut |_| (), |env| Box::pin(yash_builtin::jobs::main(env, fields)));
+                l = std::mem::take(&mut wd.env.jobs);
+                if ran.status == 0 && !ran.stuck {
+                    let pgid_only = !ran.stdout.is_empty() && !ran.stdout.starts_with('[');
+                    let reported: Vec<usize> = if pgid_only {
+                        ran.stdout
+                            .lines()
+                            .filter_map(|t| t.trim().parse::<i32>().ok())
+                            .filter_map(|p| snap.iter().find(|e| e.1 == p).map(|e| e.0))
+                            .collect()
+                    } else {
+                        for (n, m) in report_heads(&ran.stdout) {
+                            let i = n.wrapping_sub(1);
+                            if (m == '+') != (cur == Some(i)) || (m == '-') != (prev == Some(i)) || !"+- ".contains(m) {
+                                doc = Some(format!("marker:[{n}]{m}"));
+                            }
+                        }
+                        report_heads(&ran.stdout).iter().map(|(n, _)| n.wrapping_sub(1)).collect()
+                    };
+                    for (i, pid, alive, st) in &snap {
+                        let now = l.get(*i);
+                        if reported.contains(i) && !alive {
+                            if now.is_some() {
+                                doc = Some(format!("jobs-removal:{i}-kept"));
+                            }
+                        } else if !now.map(|j| j.pid.0 == *pid && show_state(&j.state) == *st).unwrap_or(false) {
+                            doc = Some(format!("jobs-removal:{i}-lost"));
+                        }
+                    }
+                }
+                show_ran(&ran)
+            }
+            ["bg", m, args @ ..] => {
+                let (Some(fields), Some(m)) = (parse_args(args), parse_bool(m)) else {
+                    return ("bad-case".into(), "-".into(), String::new());
+                };
+                let wd = world.get_or_insert_with(World::new);
+                let (cur, prev, snap) = (l.current_job(), l.previous_job(), snapshot(&l));
+                // the process group of every job that is alive exists
+                for (_, pid, alive, _) in &snap {
+                    if *alive {
+                        let st = l.get(l.find_by_pid(Pid(*pid)).unwrap()).unwrap().state;
+                        wd.add_process(Pid(*pid), Pid(1), st);
+                    }
+                }
+                wd.env.options.set(Monitor, if m { On } else { Off });
+                wd.env.jobs = std::mem::take(&mut l);
+                let ran = wd.run_builtin(&mut |_| (), |env| Box::pin(yash_builtin::bg::main(env, fields)));
+                l = std::mem::take(&mut wd.env.jobs);
+                if ran.status == 0 && !ran.stuck {
+                    // "The (last) resumed job's process ID is set to the `!` special parameter."
+                    let operands: Vec<&str> = args.iter().copied().filter(|a| *a != "--").collect();
+                    // (with several operands an earlier one changes what `%+`/`%-` mean for a later one)
+                    let target = match operands.as_slice() {
+                        [] => Some(cur),
+                        [op] => doc_simple(op, cur, prev, &snap),
+                        _ => None,
+                    };
+                    if let Some(t) = target {
+                        let pid = t.and_then(|i| snap.iter().find(|e| e.0 == i)).map(|e| e.1);
+                        if pid != Some(l.last_async_pid().0) {
+                            doc = Some("bg-async".into());
+                        }
+                    }
+                }
+                show_ran(&ran)
+            }
+            ["fg", m, out, args @ ..] => {
+                let (Some(fields), Some(m), Some(outcome)) = (parse_args(args), parse_bool(m), parse_state(out)) else {
+                    return ("bad-case".into(), "-".into(), String::new());
+                };
+                if outcome == ProcessState::Running {
+                    return ("bad-case".into(), "-".into(), String::new());
+                }
+                let wd = world.get_or_insert_with(World::new);
+                // the job the built-in is going to resume, found with the real job-ID code; only
+                // that job gets a process, a child of the shell in the state the table records
+                let target: Option<usize> = match args.iter().copied().filter(|a| *a != "--").collect::<Vec<_>>().as_slice() {
+                    [] => l.current_job(),
+                    [op] => yash_env::job::id::parse(op).ok().and_then(|id| id.find(&l).ok()),
+                    _ => None,
+                };
+                let mut target_pid = None;
+                if let Some(j) = target.and_then(|i| l.get(i)) {
+                    if j.state.is_alive() {
+                        wd.add_process(j.pid, wd.shell_pid, j.state);
+                        target_pid = Some(j.pid);
+                    }
+                }
+                let was_alive = target_pid.is_some();
+                let final_state = target.and_then(|i| l.get(i)).map(|j| if j.state.is_alive() { outcome } else { j.state });
+                wd.env.options.set(Monitor, if m { On } else { Off });
+                wd.env.jobs = std::mem::take(&mut l);
+                let shell = wd.shell_pid;
+                let mut fired = false;
+                let mut hook = |state: &Rc<RefCell<SystemState>>| {
+                    // the resumed process halts in state `outcome` once the shell has seen it running
+                    let Some(pid) = target_pid else { return };
+                    if fired {
+                        return;
+                    }
+                    let mut st = state.borrow_mut();
+                    let Some(p) = st.processes.get_mut(&pid) else { return };
+                    if p.state() == ProcessState::Running && !p.state_has_changed() {
+                        let _ = p.set_state(outcome);
+                        fired = true;
+                        if let Some(sh) = st.processes.get_mut(&shell) {
+                            let _ = sh.raise_signal(yash_env::system::r#virtual::SIGCHLD);
+                        }
+                    }
+                };
+                let ran = wd.run_builtin(&mut hook, |env| Box::pin(yash_builtin::fg::main(env, fields)));
+                l = std::mem::take(&mut wd.env.jobs);
+                let _ = was_alive;
+                if !ran.stuck && ran.stderr.is_empty() {
+                    // "If the resumed job finishes, it is removed from the job list.  If the job gets
+                    // suspended again, it is set as the current job."
+                    match (target, final_state) {
+                        (Some(i), Some(f)) => {
+                            if f.is_stopped() {
+                                if l.current_job() != Some(i) {
+                                    doc = Some("fg-current".into());
+                                }
+                            } else if l.get(i).is_some() {
+                                doc = Some("fg-removal".into());
+                            }
+                        }
+                        _ => doc = Some("fg-designation".into()),
+                    }
+                }
+                show_ran(&ran)
+            }
+            ["wait", args @ ..] => {
+                let Some(fields) = parse_args(args) else {
+                    return ("bad-case".into(), "-".into(), String::new());
+                };
+                let wd = world.get_or_insert_with(World::new);
+                wd.env.jobs = std::mem::take(&mut l);
+                let ran = wd.run_builtin(&mut |_| (), |env| Box::pin(yash_builtin::wait::main(env, fields)));
+                l = std::mem::take(&mut wd.env.jobs);
+                show_ran(&ran)
+            }
+            ["wres", a] => {
+                let Some(mut fields) = parse_args(&[a]) else {
+                    return ("bad-case".into(), "-".into(), String::new());
+                };
+                use yash_builtin::wait::JobSpec;
+                match JobSpec::try_from(fields.remove(0)) {
+                    Err(_) => "bad".into(),
+                    Ok(spec) => {
+                        let simple = match &spec {
+                            JobSpec::JobId(f) => doc_simple(&f.value, l.current_job(), l.previous_job(), &snapshot(&l)),
+                            _ => None,
+                        };
+                        match yash_builtin::wait::search::resolve(&l, spec) {
+                            Ok(Some(i)) => {
+                                if simple.is_some() && simple != Some(Some(i)) {
+                                    doc = Some("wres-designation".into());
+                                }
+                                format!("some:{i}")
+                            }
+                            Ok(None) => {
+                                if simple.is_some() && simple != Some(None) {
+                                    doc = Some("wres-designation".into());
+                                }
+                                "none".into()
+                            }
+                            Err(_) => "amb".into(),
+                        }
+                    }
+                }
+            }
+            ["amp", p, m, i, name] => {
+                let (Ok(pid), Some(m), Some(inter)) = (p.parse::<i32>(), parse_bool(m), parse_bool(i)) else {
+                    return ("bad-case".into(), "-".into(), String::new());
+                };
+                if !NAMES.contains(name) || pid < 10 {
+                    return ("bad-case".into(), "-".into(), String::new());
+                }
+                if let Some(i) = l.find_by_pid(Pid(pid)) {
+                    if l.get(i).map(|j| j.state.is_alive()).unwrap_or(false) {
+                        pre = false;
+                    }
+                }
+                let wd = world.get_or_insert_with(World::new);
+                // `run_in_child_process` hands out "maximum of existing process IDs plus 1"
+                wd.add_process(Pid(pid - 1), Pid(1), ProcessState::Running);
+                wd.env.options.set(Monitor, if m { On } else { Off });
+                wd.env.options.set(Interactive, if inter { On } else { Off });
+                wd.env.jobs = std::mem::take(&mut l);
+                let item = yash_syntax::syntax::Item {
+                    and_or: Rc::new(name.parse().unwrap()),
+                    async_flag: Some(Location::dummy("")),
+                };
+                let ran = wd.run_builtin(&mut |_| (), |env| {
+                    Box::pin(async move {
+                        let r = item.execute(env).await;
+                        yash_env::builtin::Result::with_exit_status_and_divert(env.exit_status, r)
+                    })
+                });
+                wd.env.options.set(Interactive, Off);
+                l = std::mem::take(&mut wd.env.jobs);
+                // `$!` is the process ID of the asynchronous command, which is a running job of that name
+                let ok = l.last_async_pid() == Pid(pid)
+                    && l.find_by_pid(Pid(pid))
+                        .and_then(|i| l.get(i))
+                        .map(|j| j.pid == Pid(pid) && j.name == *name && j.state == ProcessState::Running)
+                        .unwrap_or(false);
+                if !ok && !ran.stuck {
+                    doc = Some("amp-job".into());
+                }
+                show_ran(&ran)
+            }
             ["ins", p, st] => {
                 let pid = Pid(p.parse().unwrap());
                 if let Some(i) = l.find_by_pid(pid) {
@@ -246,6 +756,8 @@ fn run_case(case: &str) -> (String, String, String) {
                 verdict = Some(format!("FAIL:inv@{k}:{e}"));
             } else if !stable(&before, &l) {
                 verdict = Some(format!("FAIL:index@{k}"));
+            } else if let Some(d) = doc {
+                verdict = Some(format!("FAIL:{d}@{k}"));
             }
         }
         obs.push(observe(&l, &r, &pids));
@@ -292,10 +804,125 @@ fn alphabet() -> Vec<String> {
     ops
 }
 
-/// `ins` of a pid whose job is alive violates the stated precondition: keep only some of those.
+/// second alphabet: named, job-controlled jobs and the built-ins
+fn alphabet2() -> Vec<String> {
+    let mut ops: Vec<String> = [
+        "job 101 R 1 ab",
+        "job 101 S120 1 ab",
+        "job 102 R 1 abc",
+        "job 102 S116 1 abc",
+        "job 103 R 1 b",
+        "job 103 S120 0 b",
+        "amp 104 1 0 a",
+        "amp 104 0 1 ba",
+        "jobs",
+        "jobs -l",
+        "jobs -p",
+        "jobs %1",
+        "jobs %- %+",
+        "jobs %a",
+        "jobs ?b 2",
+        "bg 1",
+        "bg 1 %1",
+        "bg 1 %-",
+        "bg 1 %2 %3",
+        "bg 0",
+        "fg 1 E0",
+        "fg 1 S120",
+        "fg 1 E3 %-",
+        "fg 1 K9 %2",
+        "fg 1 S116 %3",
+        "wait",
+        "wait %1",
+        "wait %% %-",
+        "wait 102",
+        "disown",
+    ]
+    .iter()
+    .map(|s| s.to_string())
+    .collect();
+    for p in [101, 102, 103, 104] {
+        for s in ["R", "S120", "E0", "K9"] {
+            ops.push(format!("upd {p} {s}"));
+        }
+    }
+    ops
+}
+
+const OPERANDS: [&str; 40] = [
+    "%", "%%", "%+", "%-", "%1", "%2", "%3", "%4", "%5", "%9", "%0", "%01", "%a", "%ab", "%abc", "%b",
+    "%ba", "%?b", "%?", "%?c", "%?a", "%x", "%-1", "%%%", "1", "2", "3", "a", "?b", "-", "''", "x", "+", "%+",
+    "%18446744073709551615", "%18446744073709551616", "%1x", "%?ab", "%", "%-",
+];
+
+const LIKELY: [&str; 14] = ["%", "%%", "%+", "%-", "%1", "%2", "%3", "%1", "%2", "%a", "%?b", "%ab", "1", "2"];
+
+/// a random argument list for a built-in: an option with probability 1/`opt_den`, then 0-3
+/// operands, mostly of the forms that are likely to designate a job
+fn random_args(r: &mut Rng, options: &[&str], opt_den: u32, max_operands: usize) -> String {
+    let mut v: Vec<String> = vec![];
+    if r.chance(1, opt_den) {
+        v.push(r.pick(options).to_string());
+    }
+    if r.chance(1, 12) {
+        v.push("--".into());
+    }
+    let n = match r.below(20) {
+        0..=7 => 0,
+        8..=14 => 1,
+        15..=17 => 2,
+        _ => 3,
+    };
+    for _ in 0..n.min(max_operands) {
+        if r.chance(2, 3) {
+            v.push(r.pick(&LIKELY).to_string());
+        } else {
+            v.push(r.pick(&OPERANDS).to_string());
+        }
+    }
+    v.join(" ")
+}
+
+/// one operation of the mixed family (API operations, named jobs, built-ins, `cmd &`)
+fn random_mixed_op(r: &mut Rng, npids: usize) -> String {
+    let p = 101 + r.below(npids);
+    let names = ["a", "ab", "abc", "b", "ba", "-", "ab"];
+    match r.below(20) {
+        0 | 1 | 2 => format!(
+            "job {p} {} {} {}",
+            r.pick(&["R", "S120", "S116", "R", "E0", "S19"]),
+            r.pick(&["1", "1", "1", "0"]),
+            r.pick(&names)
+        ),
+        3 => format!("amp {p} {} {} {}", r.below(2), r.below(2), r.pick(&NAMES)),
+        4 | 5 | 6 => format!("upd {p} {}", r.pick(&["R", "S120", "S121", "E0", "E3", "K9", "C3", "K15", "S203"])),
+        7 | 8 | 9 => format!("jobs {}", random_args(r, &["-l", "-p", "-l", "-p", "-lp", "-ll", "-x", "-pl"], 3, 3)).trim().to_string(),
+        10 | 11 | 12 => format!("bg {} {}", if r.chance(1, 8) { 0 } else { 1 }, random_args(r, &["-x"], 15, 3)).trim().to_string(),
+        13 | 14 => format!(
+            "fg {} {} {}",
+            if r.chance(1, 8) { 0 } else { 1 },
+            r.pick(&["E0", "E7", "K9", "C3", "S120", "S116", "S121"]),
+            random_args(r, &["-x"], 15, 1)
+        )
+        .trim()
+        .to_string(),
+        15 | 16 => {
+            let mut a = random_args(r, &["-x"], 15, 3);
+            if r.chance(1, 5) {
+                a = format!("{a} {}", r.pick(&["101", "102", "103", "0", "+101", "-1", "1x", "99999999999"]));
+            }
+            format!("wait {a}").trim().to_string()
+        }
+        17 => format!("wres {}", r.pick(&OPERANDS[..24])),
+        18 => r.pick(&["disown", "rep", "rmdone 1", "rmchg"]).to_string(),
+        _ => format!("cur {}", r.below(npids + 1)),
+    }
+}
+
+/// `ins`/`job`/`amp` of a pid whose job is alive violates the stated precondition: keep only some of those.
 fn respects_pre(key: &str, op: &str) -> bool {
     let w: Vec<&str> = op.split_whitespace().collect();
-    if w[0] != "ins" {
+    if w[0] != "ins" && w[0] != "job" && w[0] != "amp" {
         return true;
     }
     // key contains "jobs=i:pid:state:..." entries
@@ -346,6 +973,63 @@ fn main() {
                 queue.push_back((case, nkey, d + 1));
             }
         }
+    }
+    // the same over named job-controlled jobs and the built-ins
+    let depth2 = if o.thorough() { 4 } else { 3 };
+    let alpha2 = alphabet2();
+    let mut seen: HashSet<String> = HashSet::new();
+    let mut queue: VecDeque<(String, String, usize)> = VecDeque::new();
+    queue.push_back((String::new(), String::new(), 0));
+    seen.insert(String::new());
+    while let Some((hist, key, d)) = queue.pop_front() {
+        if d >= depth2 {
+            continue;
+        }
+        for op in &alpha2 {
+            if !respects_pre(&key, op) {
+                continue;
+            }
+            let case = if hist.is_empty() { op.clone() } else { format!("{hist}; {op}") };
+            let (obs, oracle, nkey) = run_guarded(&case);
+            edges += 1;
+            if edges % o.shard.1 == o.shard.0 {
+                emit(&case, &obs, &oracle);
+            }
+            if seen.insert(nkey.clone()) {
+                queue.push_back((case, nkey, d + 1));
+            }
+        }
+    }
+    // random histories mixing the API with the built-ins
+    let mut rng = Rng::new(o.seed ^ 0xC12B);
+    let n = if o.thorough() { 60_000 } else { 4_000 };
+    for k in 0..n {
+        if k % o.shard.1 != o.shard.0 {
+            rng.next();
+            continue;
+        }
+        let mut r = rng.fork();
+        let len = 4 + r.below(if o.thorough() { 30 } else { 16 });
+        let npids = 2 + r.below(5);
+        let honour = !r.chance(1, 8);
+        let mut ops: Vec<String> = vec![];
+        let mut hist = String::new();
+        let mut key = String::new();
+        for _ in 0..len {
+            let op = loop {
+                let cand = random_mixed_op(&mut r, npids);
+                if !honour || respects_pre(&key, &cand) {
+                    break cand;
+                }
+            };
+            ops.push(op);
+            hist = ops.join("; ");
+            if honour {
+                key = run_guarded(&hist).2;
+            }
+        }
+        let (obs, oracle, _) = run_guarded(&hist);
+        emit(&hist, &obs, &oracle);
     }
     // random long histories, including ones that break the insert precondition, more pids
     let mut rng = Rng::new(o.seed ^ 0xC12);
